@@ -161,6 +161,7 @@ func init() {
 		"zero": wxBa(), "len1": wxBa(0xfb), "len2": wxBa(0xfb, 0xff), "len3": wxBa(0xfb, 0xff, 0xfe), "len4": wxBa(0, 0x10, 0x83, 0x3f),
 		"len257": wxBa(wxLongBytes(257)...), "len1000": wxBa(wxLongBytes(1000)...),
 		"bad": wxJunk("str", "!!!!"), "badlen": wxJunk("str", "A"),
+		"overpad": wxJunk("str", "QUJD="), "overpad2": wxJunk("str", "QUI=="), "overpadurl": wxJunk("str", "-_A=="), "onlypad": wxJunk("str", "===="),
 	}
 	wireAtoms["timestamp"] = map[string]*wAtom{
 		"epoch": wxTa(0, 0, "1970-01-01T00:00:00Z", map[string]string{"plus": "1970-01-01T05:30:00+05:30", "minus": "1969-12-31T16:00:00-08:00"}),
